@@ -44,6 +44,7 @@ TEMPLATES = [
     ("glued-in", "x = a in{0}\n"), ("glued-not", "x = not{0}\n"), ("blank-lines", "x = {0}\n\n\n# only comment\ny = {1}\n"),
     ("nested-block", "for i in {0}:\n    if i:\n        z = {1}\n    w = 1\n"), ("no-final-newline", "x = {0}"),
     ("formfeed-line", "x = {0}\n\x0c\ny = {1}\n"), ("comment-formfeed", "x = {0}  # c\x0cd \x1c \u2028 e\ny = {1}\n"),
+    ("brace-lines", "x = {{\n    {0}: 1,\n    'k': a\n    .b,\n    'j': {1},\n}}\n"), ("set-comp-lines", "x = {{a\n     .b for q in\n     {0}}}\n"),
     ("decorated", "@{0}\ndef g():\n    return {1}\n"), ("lambda-default", "h = lambda q={0}: {1}\n"),
 ]
 
@@ -62,7 +63,7 @@ def line_starts(src):
 class C14(Check):
     pid = "C14"
     level = "exploration"
-    rule = ("cases = texts built from 20 statement templates x 53 expression atoms in each hole (one statement: full product; two "
+    rule = ("cases = texts built from 22 statement templates x 53 expression atoms in each hole (one statement: full product; two "
             "statements: every template pair with the same atom), kept when tokenize and compile accept them; evaluations = sub-checks "
             "per text: ignored_regions vs STRING/f-string/COMMENT token spans, real_code length and characters outside regions, "
             "SourceLinesAdapter offset<->line round trips for every offset and line, logical_line_in for every physical line carrying "
@@ -74,7 +75,7 @@ class C14(Check):
     chunksize = 32
 
     def bound_text(self, tier):
-        return "one statement: 20 templates x 53 atoms (x53 for two-hole templates); two statements: template pairs"
+        return "one statement: 22 templates x 53 atoms (x53 for two-hole templates); two statements: template pairs"
 
     def cases(self, tier):
         out = []
